@@ -156,7 +156,7 @@ impl Prop for C04 {
             f.push(Family::new(
                 "same-shape-histories",
                 Mode::Full,
-                &format!("every sequence of 1..={} evaluations of ONE line shape with operands from [0, 1, 2,5, 1000] (shapes: unit conversion within a family and across metric/imperial, currency conversion, money sum, percentage, alias word arithmetic, date + N days, N to hex, zone conversion at N o'clock, duration conversion, variable round trip), plus every ordered pair of (shape, operand) texts: each on its own fresh calculator, every observation equal to a calculator used once", depth),
+                &format!("every sequence of 1..={} evaluations of ONE line shape with operands from [0, 1, 2,5, 1000] (shapes: unit conversion within a family and across metric/imperial, currency conversion, money sum, percentage, alias word arithmetic, date + N days, N to hex, zone conversion at N o'clock, duration conversion, variable round trip), plus (thorough) every ordered pair of (shape, operand) texts: each on its own fresh calculator, every observation equal to a calculator used once", depth),
                 move |ch| {
                     let shapes: [&str; 11] = ["{} kb to byte", "{} inch to cm", "{} usd to try", "{} eur + 1 usd", "{}% of 200", "{} times 3", "15/6/2021 + {} days", "{} to hex", "{}:00 EST to CET", "{} hours 30 minutes as minutes", "v = {} km\nv to m"];
                     let operands: [&str; 4] = ["0", "1", "2,5", "1000"];
@@ -166,7 +166,9 @@ impl Prop for C04 {
                         let op = if op.is_empty() { "1".to_string() } else { op };
                         shape.replace("{}", &op).replace("\\n", "\n")
                     };
-                    let pairs = ch.flag();
+                    // cross-shape neighbours are covered by pair-walks; the pairs below are kept in the
+                    // thorough tier (each on its own fresh calculator: first-use effects across shapes)
+                    let pairs = tier == Tier::Thorough && ch.flag();
                     if pairs {
                         let a = fill(*ch.pick(&shapes), *ch.pick(&operands));
                         let b = fill(*ch.pick(&shapes), *ch.pick(&operands));
